@@ -127,8 +127,17 @@ let run_history (toks : string list) : string =
                        | Some d -> sends := ({ a_fam = nn 2; a_ip = [ nn 127; N0; N0; nn 1 ]; a_port = nn (ios bindport) }, d) :: !sends
                        | None -> ())) outs;
               let sends = Stdlib.List.rev !sends and tuns = Stdlib.List.rev !tuns in
+              let decoded d =
+                (* what the client decoder extracts, when the datagram is a DNS answer (not a raw frame) *)
+                match d with
+                | b0 :: b1 :: b2 :: _ when Stdlib.List.length d >= 12 && (int_of_n b2) land 0x80 <> 0
+                                         && not (int_of_n b0 = 0x10 && int_of_n b1 = 0xd1 && int_of_n b2 = 0x9e) ->
+                    let r = client_extract buf64k d (nat (Stdlib.List.length d)) in
+                    let rv = z_to_int r.da_rv in
+                    Printf.sprintf "{%d:%s}" rv (if rv > 0 then sum_of_bytes (take rv r.da_out) else "-")
+                | _ -> "" in
               Some (Printf.sprintf "%d%s T%d%s | %s" (Stdlib.List.length sends)
-                      (String.concat "" (Stdlib.List.map (fun (a, d) -> " " ^ show_addr a ^ "=" ^ sum_of_bytes d) sends))
+                      (String.concat "" (Stdlib.List.map (fun (a, d) -> " " ^ show_addr a ^ "=" ^ sum_of_bytes d ^ decoded d) sends))
                       (Stdlib.List.length tuns)
                       (String.concat "" (Stdlib.List.map (fun d -> " " ^ sum_of_bytes d) tuns))
                       (state_digest !st))) events in
